@@ -91,11 +91,23 @@ Proof.
   cbn [flat_map]. now rewrite wesc_byte_url, IH.
 Qed.
 
+Lemma plain_byte_spec : forall b, plain_byte b = true ->
+  32 <= b /\ b < 127 /\ b <> 38 /\ b <> 60 /\ b <> 62 /\ b <> 34.
+Proof.
+  intros b H. unfold plain_byte in H.
+  apply andb_prop in H. destruct H as [H Hm]. apply andb_prop in H. destruct H as [Hlo Hhi].
+  apply N.leb_le in Hlo. apply N.ltb_lt in Hhi. apply negb_true_iff in Hm.
+  repeat (apply orb_false_iff in Hm; destruct Hm as [Hm ?]).
+  repeat match goal with H : (_ =? _) = false |- _ => apply N.eqb_neq in H end.
+  repeat split; assumption.
+Qed.
+
 Lemma url_byte_plain : forall b, plain_byte b = true -> url_byte b = [b].
 Proof.
-  intros b H. unfold plain_byte in H. unfold url_byte.
-  apply negb_true_iff in H. repeat (apply orb_false_iff in H; destruct H as [H ?]).
-  repeat match goal with H : (_ =? _) = false |- _ => rewrite H; clear H end. reflexivity.
+  intros b H. apply plain_byte_spec in H. destruct H as (Hlo & Hhi & H38 & H60 & H62 & H34).
+  unfold url_byte.
+  repeat match goal with |- context [?x =? ?y] => destruct (N.eqb_spec x y); [lia|] end.
+  reflexivity.
 Qed.
 
 Lemma wesc_plain : forall v, forallb plain_byte v = true -> wesc v = v.
@@ -117,11 +129,10 @@ Proof.
   induction t as [|b r IH]; [reflexivity|].
   cbn [forallb] in H. apply andb_prop in H. destruct H as [Hb Hr].
   cbn [flat_map]. rewrite IH by exact Hr.
-  unfold plain_byte in Hb. apply negb_true_iff in Hb.
-  repeat (apply orb_false_iff in Hb; destruct Hb as [Hb ?]).
+  apply plain_byte_spec in Hb. destruct Hb as (Hlo & Hhi & H38 & H60 & H62 & H34).
   unfold render_byte, text_must.
-  repeat match goal with H : (_ =? _) = false |- _ => rewrite H; clear H end.
-  cbn [orb]. destruct (128 <=? b); reflexivity.
+  repeat match goal with |- context [?x =? ?y] => destruct (N.eqb_spec x y); [lia|] end.
+  cbn [orb]. destruct (N.leb_spec 128 b); [lia|reflexivity].
 Qed.
 
 Lemma cdata_body_escape : forall t, cdata_body t = cdata_escape t.
@@ -153,6 +164,7 @@ Lemma digit_plain : forall b, digit_b b = true -> plain_byte b = true.
 Proof.
   intros b H. unfold digit_b in H. apply andb_prop in H. destruct H as [H1 H2].
   apply N.leb_le in H1. apply N.leb_le in H2. unfold plain_byte.
+  apply andb_true_intro; split; [apply andb_true_intro; split; [apply N.leb_le|apply N.ltb_lt]; lia|].
   apply negb_true_iff.
   repeat (apply orb_false_iff; split); apply N.eqb_neq; lia.
 Qed.
